@@ -265,9 +265,46 @@ def judge(ck, o, pre, acked, ops, where, replay):
                      % (where, acked, len(ops), json.dumps(p), (bad + "; ") if bad else "", acked, json.dumps(pre[acked]["proj"]), ctx), replay)
 
 
+def refused_whole(ck, b):
+    """operations the store refuses (the instance's hash function differs for a key that holds data: ErrKVHashFnChanged) must leave
+    nothing behind, also when they had already written other rows of the same transaction"""
+    setup = [{"m": "put", "k": 1, "v": "v1"}, {"m": "put", "k": 3, "v": "v1"}, {"m": "append", "k": 3, "c": "c1"}, {"m": "append", "k": 2, "c": "c1"},
+             {"m": "flipreopen", "ks": [3]}]
+    _, base, _, d = run_full(ck, b, setup)
+    shutil.rmtree(d, ignore_errors=True)
+    base = norm_obs(base)
+    cands = [{"m": "put", "k": 3, "v": "v2"}, {"m": "delete", "k": 3}, {"m": "append", "k": 3, "c": "c2"}, {"m": "remove", "k": 3, "c": "c1"},
+             {"m": "import", "ks": [1, 3], "v": "v2", "cs": ["c2"]}, {"m": "import", "ks": [1, 2, 3], "v": "v2", "cs": ["c1", "c2"]},
+             {"m": "import", "ks": [3, 1], "v": "v2", "cs": ["c2"]}, {"m": "removekeys", "ks": [1, 3]}, {"m": "removekeys", "ks": [2, 3, 1]}]
+    refused = 0
+    for x in cands:
+        h = setup + [x]
+        rets, final, _, d = run_full(ck, b, h)
+        o = reopen(ck, b, [d])[0]
+        shutil.rmtree(d, ignore_errors=True)
+        ck.count(("refused", json.dumps(x)), True)
+        if not rets[-1].startswith("error"):
+            continue                      # not refused: nothing to judge here
+        refused += 1
+        for what, st in (("the live store", norm_obs(final)), ("the reopened store", norm_obs(o) if "err" not in o else None)):
+            if st is None:
+                ck.violation("C23:reopen-fails", "reopen after a refused %s fails: %s" % (x["m"], o.get("err")), {"mode": "refused", "ops": h})
+            elif st != base:
+                ck.violation("C23:refused-operation-left-data:%s" % x["m"], "%s was refused (%s) but %s then shows %s instead of the content before it %s"
+                             % (json.dumps(x), rets[-1][:80], what, json.dumps(st), json.dumps(base)), {"mode": "refused", "ops": h})
+                break
+    ck.extra["refused_operations_judged"] = refused
+    if refused == 0:
+        ck.notes.append("no operation was refused after the hash function of the instance changed: the atomicity of refused operations was not exercised")
+
+
 def run(ck):
     b = ck.build("sqlcrash")
     rng = ck.rng
+    if ck.replay is None or ck.replay.get("mode") == "refused":
+        refused_whole(ck, b)
+        if ck.replay is not None:
+            return
     if ck.replay is not None:
         rp = ck.replay
         kill_hists = [rp["ops"]] if rp.get("mode") == "kill" else []
